@@ -126,4 +126,15 @@ Compress(P) == LET a == ToAffine(P) IN <<a[2], IF FIsNeg(a[1]) THEN 1 ELSE 0>>
 \* certificate form of decompression: x0 claimed to be the non-negative root (see Field!SqrtRatioCertOK)
 DecompressCertOK(y, ok, x0) ==
   LET yy == FMul(y, y) IN SqrtRatioCertOK(FSub(yy, FOne), FAdd(FMul(yy, FD), FOne), ok, x0)
+\* decompression driven by an UNTRUSTED certificate for the square root: if the certificate satisfies the
+\* (sound, toy-scale-proved) certificate conditions it replaces the exponentiation, otherwise the algorithm runs
+DecompressWithCert(y, sign, cert) ==
+  LET yy == FMul(y, y)
+      u == FSub(yy, FOne)
+      v == FAdd(FMul(yy, FD), FOne)
+      sr == IF SqrtRatioCertOK(u, v, TRUE, cert) THEN <<TRUE, cert>>
+            ELSE IF SqrtRatioCertOK(u, v, FALSE, cert) THEN <<FALSE, cert>>
+            ELSE SqrtRatioI(u, v)
+      x == IF sign = 1 THEN FNeg(sr[2]) ELSE sr[2]
+  IN <<sr[1], <<x, y, FOne, FMul(x, y)>>>>
 =============================================================================
